@@ -93,7 +93,7 @@ def _blocks(text):
 def regen():
     """Regenerate lean/LLRP/Gen/*.lean from /repo's working tree. Returns a list of (unit, message) failures.
 
-    Units are independent: `facts:<Section>` (one Gen module each), `go2lean:<function>` (one block of Funcs.lean each),
+    Units are independent: `facts:<Section>` (one Gen module each), `go2lean:<function>` / `go2seq:<function>` (one block of Funcs.lean / Seq.lean each),
     `yaml2lean`. A unit that cannot be regenerated keeps its last regenerated content (the baseline under pinned/gen on
     a fresh checkout): the properties that use it lose that obligation and search for a failing input against the
     last model the translator understood; the others are not affected."""
@@ -121,26 +121,27 @@ def regen():
                 if sec not in seen:
                     failures.append(('facts:' + sec, 'facts2lean: ' + o.strip()[-1200:]))
                     _fallback(sec)
-    # go2lean
-    funcs = os.path.join(GEN, 'Funcs.lean')
-    if not os.path.exists(funcs) and os.path.exists(os.path.join(GENBASE, 'Funcs.lean')):
-        shutil.copy(os.path.join(GENBASE, 'Funcs.lean'), funcs)
-    old = _blocks(open(funcs).read()) if os.path.exists(funcs) else {}
-    p = subprocess.run([vx, 'go2lean', REPO], stdout=subprocess.PIPE, stderr=subprocess.PIPE, text=True, env=GOENV)
-    if p.returncode != 0:
-        for name in sorted(old) or ['*']:
-            failures.append(('go2lean:' + name, p.stderr.strip()[-1200:]))
-    else:
-        out = []
-        for l in p.stdout.split('\n'):
-            m = re.match(r'-- FAILED (\w+): (.*)', l)
-            if m:
-                failures.append(('go2lean:' + m.group(1), m.group(2)[:1500]))
-                if m.group(1) in old:       # keep the last translation this translator produced for it
-                    out += ['-- BEGIN ' + m.group(1), old[m.group(1)], '-- END ' + m.group(1)]
-                continue
-            out.append(l)
-        write_if_changed(funcs, '\n'.join(out).replace('namespace LLRP.Gen\n', 'set_option linter.unusedVariables false\nnamespace LLRP.Gen\n', 1))
+    # go2lean (Funcs.lean: integer / byte-buffer functions) and go2seq (Seq.lean: sequential functions in state-passing style)
+    for sub, mod in (('go2lean', 'Funcs'), ('go2seq', 'Seq')):
+        funcs = os.path.join(GEN, mod + '.lean')
+        if not os.path.exists(funcs) and os.path.exists(os.path.join(GENBASE, mod + '.lean')):
+            shutil.copy(os.path.join(GENBASE, mod + '.lean'), funcs)
+        old = _blocks(open(funcs).read()) if os.path.exists(funcs) else {}
+        p = subprocess.run([vx, sub, REPO], stdout=subprocess.PIPE, stderr=subprocess.PIPE, text=True, env=GOENV)
+        if p.returncode != 0:
+            for name in sorted(old) or ['*']:
+                failures.append((sub + ':' + name, p.stderr.strip()[-1200:]))
+        else:
+            out = []
+            for l in p.stdout.split('\n'):
+                m = re.match(r'-- FAILED (\w+): (.*)', l)
+                if m:
+                    failures.append((sub + ':' + m.group(1), m.group(2)[:1500]))
+                    if m.group(1) in old:       # keep the last translation this translator produced for it
+                        out += ['-- BEGIN ' + m.group(1), old[m.group(1)], '-- END ' + m.group(1)]
+                    continue
+                out.append(l)
+            write_if_changed(funcs, '\n'.join(out).replace('namespace LLRP.Gen\n', 'set_option linter.unusedVariables false\nnamespace LLRP.Gen\n', 1))
     # yaml2lean
     os.makedirs(os.path.join(BUILD, 'gen', 'llrp'), exist_ok=True)
     p = subprocess.run([sys.executable, os.path.join(VERIF, 'translators', 'yaml2lean.py'), os.path.join(REPO, 'pkg/llrp/messages.yaml'), 'LLRP.Gen',
@@ -192,6 +193,9 @@ def unit_relevant(unit, uses):
     if unit.startswith('go2lean:'):
         name = unit[8:]
         return 'Funcs' in gen and (name == '*' or re.search(r'\b%s(_safe)?\b' % re.escape(name), text) is not None)
+    if unit.startswith('go2seq:'):
+        name = unit[7:]
+        return 'Seq' in gen and (name == '*' or re.search(r'\b(Env_)?%s\b' % re.escape(name), text) is not None)
     if unit.startswith('yaml2lean(pinned)'):
         return True if 'LLRP.Pinned' in text else False
     if unit.startswith('yaml2lean'):
